@@ -78,6 +78,9 @@ def build(ctx, spec, name=None, base_executor=None):
     cur = base
     for L in spec["layers"]:
         t, k = L["t"], L["k"]
+        if t in spec.get("shim_below", ()):
+            # observe the boundary between this layer and its delegate
+            cur = harness.RecordingExecutor(cur, name="below-%s%d" % (t, k))
         if t == "map":
             fn = None
             if L.get("fn", "tag") == "tag":
